@@ -181,7 +181,10 @@ class SMTwist(SMUserList):
             >>> S = Twist3([1,2,3,4,5,6])
             >>> S.unit()
         """
-        return Twist3(base.unittwist(self.S))
+        if len(self) == 1:
+            return Twist3(base.unittwist(self.S))
+        else:
+            return Twist3([base.unittwist(x) for x in self.data])
 
     def inv(self):
         """
@@ -1381,7 +1384,10 @@ class Twist2(SMTwist):
         - ``S.unit()`` is a Twist3 object representing a unit twist aligned with the
         Twist ``S``.
         """
-        return Twist2(base.unittwist2(self.S))
+        if len(self) == 1:
+            return Twist2(base.unittwist2(self.S))
+        else:
+            return Twist2([base.unittwist2(x) for x in self.data])
 
     @property
     def ad(self):
